@@ -619,10 +619,10 @@ func (m *SparseInt32Matrix) Import(filename string) error {
     } else {
       colIndices = append(colIndices, int(v))
     }
-    if v, err := strconv.ParseFloat(fields[2], 64); err != nil {
+    if v, err := parse_int32(fields[2]); err != nil {
       return err
     } else {
-      values = append(values, int32(v))
+      values = append(values, v)
     }
   }
   if rows < 0 || cols < 0 {
